@@ -8,6 +8,9 @@ TB = ("Trusted base: Coq 8.16.1 kernel (+ its vm_compute machine for closed witn
       "hand-written Gallina model of the anchored Rust code (modelled, not verified) tied by the differential correspondence run on every check "
       "(extraction with ExtrOcamlBasic only, no Extract Constant; OCaml driver; Rust harness built from /repo's working tree with --cfg selen_verif); tools/gen_consts.py constant translator. ")
 CHECKS = {
+ "C12": dict(text="Integer half proved in Coq for all domains/bounds/sequences: try_set_min/max leave exactly the values on the right side of the bound, fail iff none is left, report a change iff the domain shrank (Properties/C12.v, 9 theorems incl. the bridge to the verified SparseSet model); tied to views.rs Context::try_set_min/max through hook H1 by an exhaustive small-scope + random differential and an independent python judge. Float half: see level_note.",
+             note=TB + "PARTIAL: the float half (FloatInterval primitives, float branches of try_set_min/max) is not yet part of this check in the committed state.",
+             tech="Coq proofs about the bound setters over abstract domains + refinement bridge to the sparse set + differential through hook H1", ref="6/C12"),
  "C11": dict(text="Refinement theorem (Coq, all histories, all universes): every SparseSet operation sequence incl. stack-disciplined save/restore agrees with a plain mathematical set on every observation; tied to sparse_set.rs by an exhaustive small-scope + seeded random differential of the extracted model against the real SparseSet.",
              note=TB + "Known class D7 (restore after an element-adding union_with) is excluded by hypothesis and refuted by witness; i32/u32 are unbounded Z/nat in the model.",
              tech="Coq refinement proof (sparse set -> mathematical set, induction over op lists) + extracted-model/implementation differential", ref="6/C11"),
